@@ -243,6 +243,22 @@ def run(ctx):
     SSL_ = "sender::sender::SenderSessionList"
     adv = set(a["bb"] for a in field_accesses(prog, SSL_, "index", funcs=[rq]) if a["kind"] == "assign" and
               a["value"][0] == "bin" and a["value"][1].startswith("Add") and show(a["value"][3]) == "1")
+    rsl0 = Slicer(rq.body)
+
+    def advance_value(v_, nm_=None):
+        """the stored value is `cursor + 1` on one arm and a constant (the wrap to 0) on the others"""
+        vals = [v_]
+        if v_[0] == "tmp":
+            vals = [rsl0.x.def_expr((db_, di_), rsl0.x.depth) for (db_, di_, dk_) in rq.body.defs().get(v_[1], []) if dk_ in ("whole", "call")]
+        elif v_[0] == "var" and not v_[2]:
+            vals = [d_ for (pj_, d_, _b) in rsl0.var_defs().get(v_[1], []) if pj_ == ""]
+        exs = [rsl0.expand(z_) for z_ in vals]
+        rx_ = r"\.index\b" + ((r"|\b%s\b" % re.escape(nm_)) if nm_ else "")
+        plus1 = [z_ for z_ in exs if z_[0] == "bin" and z_[1].startswith("Add") and show(z_[3]) == "1" and re.search(rx_, show(z_[2]))]
+        rest = [z_ for z_ in exs if z_ not in plus1]
+        return bool(plus1) and all(z_[0] == "const" for z_ in rest)
+    # `sessions.index = if next == len { 0 } else { next }` with `next = sessions.index + 1`
+    adv |= set(a["bb"] for a in field_accesses(prog, SSL_, "index", funcs=[rq]) if a["kind"] == "assign" and advance_value(a["value"]))
     # the same advance written through a reference to the cursor (`let SenderSessionList { index: cursor, .. } = sessions; *cursor = if
     # next == len { 0 } else { next }` with `next = *cursor + 1`): a store through a local that borrows `.index`, whose value is `cursor + 1`
     # on one arm and a constant (the wrap to 0) on the others
